@@ -279,6 +279,21 @@ def run_real(unit, inputs):
         return cx.failed, (type(e).__name__, _b.str(e)[:200]), None, cx
 
 
+def _real_task(job):
+    ui, inputs = job
+    failed, exc, obs, _cx = run_real(_UNITS[ui], inputs)
+    return _b.list(failed), exc, obs
+
+
+def run_real_many(ui, inputs_list):
+    """the concrete harness on the real library for many inputs, over the process pool"""
+    jobs = [(ui, i) for i in inputs_list]
+    if _b.len(jobs) < 24 or NPROC <= 1:
+        return [_real_task(j) for j in jobs]
+    with mp.get_context("fork").Pool(NPROC) as pool:
+        return pool.map(_real_task, jobs, chunksize=max(1, _b.len(jobs) // (NPROC * 4)))
+
+
 def enc_inputs(inputs):
     return {k: ("hex:" + v.hex() if isinstance(v, (bytes, bytearray)) else v) for k, v in (inputs or {}).items()}
 
@@ -381,7 +396,7 @@ def check_property(prop, units, tier, seed, *, explanation, assumptions, stubs=(
     diff = {"compared": 0, "agree": 0}
     exported = []
     seen_findings = set()
-    for u, a in zip(units, agg):
+    for ui, (u, a) in enumerate(zip(units, agg)):
         for e in a["errors"]:
             out.harness_errors.append("%s: %s" % (u.name, e))
         tags = set()
@@ -483,8 +498,8 @@ def check_property(prop, units, tier, seed, *, explanation, assumptions, stubs=(
         # how defects inside code that the symbolic side replaces by a stub/ideal primitive are still reported.
         if u.diff and okpaths:
             rng.shuffle(okpaths)
-            for r in okpaths[:(u.diff_sample or diff_sample)]:
-                failed, exc, obs, cx = run_real(u, r["inputs"])
+            sel = okpaths[:(u.diff_sample or diff_sample)]
+            for r, (failed, exc, obs) in zip(sel, run_real_many(ui, [r["inputs"] for r in sel])):
                 diff["compared"] += 1
                 if exc is None and not failed and obs == r["value"]:
                     diff["agree"] += 1
